@@ -21,3 +21,25 @@ M("c10-leaf-attach", "C10", "_relation.py", "        raise TypeError(f\"Cannot a
 M("c10-twin-rename", "C10", IT, "        if (result := relation.payload) is not None:\n            return result\n", "        if (cached := relation.payload) is not None:\n            return cached\n", expect="silent")
 M("c10-twin-invert", "C10", MARKER, "        if self.payload is None:\n            object.__setattr__(self, \"payload\", payload)\n        else:\n            raise TypeError(\n                f\"Cannot attach payload {payload} to relation {self} with existing payload \"\n                f\"{self.payload}; relation payloads are write-once.\"\n            )",
   "        if self.payload is not None:\n            raise TypeError(\n                f\"Cannot attach payload {payload} to relation {self} with existing payload \"\n                f\"{self.payload}; relation payloads are write-once.\"\n            )\n        object.__setattr__(self, \"payload\", payload)", expect="silent")
+
+# ---------------------------------------------------------------- C09
+SQL = "sql/_engine.py"
+M("c09-drop-copy-calc", "C09", SQL, "                        result = self.to_payload(target).copy()\n                        result.columns_available[tag]", "                        result = self.to_payload(target)\n                        result.columns_available[tag]", rule="R09.4")
+M("c09-drop-copy-sel", "C09", SQL, "                        result = self.to_payload(target).copy()\n                        result.where.extend(", "                        result = self.to_payload(target)\n                        result.where.extend(", rule="R09.4")
+M("c09-diag-list", "C09", "_diagnostics.py", "                messages = list(messages)\n", "", rule="R09.4")
+M("c09-calc-columns", "C09", "_operations/_calculation.py", "        result = set(target.columns)\n", "        result = target.columns\n", rule="R09.4")
+M("c09-payload-copy-shallow", "C09", "sql/_payload.py", "self, where=list(self.where), columns_available=dict(self.columns_available)", "self, where=self.where, columns_available=dict(self.columns_available)", rule="R09.4e")
+M("c09-unfreeze-projection", "C09", "_operations/_projection.py", "@final\n@dataclasses.dataclass(frozen=True)\nclass Projection", "@final\n@dataclasses.dataclass\nclass Projection", rule="R09.1")
+M("c09-unfreeze-leaf", "C09", "_leaf_relation.py", "@final\n@dataclasses.dataclass(frozen=True)\nclass LeafRelation", "@final\n@dataclasses.dataclass(frozen=False)\nclass LeafRelation", rule="R09.1")
+M("c09-sortterm-unfrozen", "C09", "_operations/_sort.py", "@dataclasses.dataclass(frozen=True)\nclass SortTerm", "@dataclasses.dataclass\nclass SortTerm", rule="R09.1")
+M("c09-sequence-list", "C09", "_columns/_container.py", "return ColumnExpressionSequence(tuple(items), dtype)", "return ColumnExpressionSequence(items, dtype)", rule="R09.2")
+M("c09-projection-no-frozenset", "C09", "_relation.py", "return Projection(frozenset(columns)).apply(", "return Projection(columns).apply(", rule="R09.2")
+M("c09-sort-no-tuple", "C09", "_relation.py", "return Sort(tuple(terms)).apply(", "return Sort(terms).apply(", rule="R09.2")
+M("c09-sort-then-list", "C09", "_operations/_sort.py", "        return Sort(tuple(new_terms))", "        return Sort(new_terms)", rule="R09.2")
+M("c09-setattr-target", "C09", "_operation_relations.py", "        if target is self.target:\n            return self\n", "        object.__setattr__(self, \"columns\", set(self.columns))\n        if target is self.target:\n            return self\n", rule="R09.3")
+M("c09-join-cols-mutate", "C09", "_operations/_join.py", "        result = set(self.binary.predicate.columns_required)\n", "        result = self.binary.predicate.columns_required\n", rule="R09.4")
+M("c09-where-extend-join", "C09", SQL, "                    where=lhs_payload.where + rhs_payload.where,", "                    where=lhs_payload.where.extend(rhs_payload.where) or lhs_payload.where,", rule="R09.4")
+M("c09-leaf-msgs-append", "C09", "_diagnostics.py", "                if relation.max_rows == 0:\n                    if not messages:", "                if relation.max_rows == 0:\n                    relation.messages.append('x')\n                    if not messages:", rule="R09.4")
+M("c09-twin-rename-result", "C09", "_operations/_calculation.py", "        result = set(target.columns)\n        result.add(self.tag)\n        return result", "        cols = set(target.columns)\n        cols.add(self.tag)\n        return cols", expect="silent")
+M("c09-twin-copy-ctor", "C09", "sql/_payload.py", "self, where=list(self.where), columns_available=dict(self.columns_available)", "self, where=[*self.where], columns_available={**self.columns_available}", expect="silent")
+M("c09-twin-frozenset-cols", "C09", "_operations/_calculation.py", "        result = set(target.columns)\n        result.add(self.tag)\n        return result", "        return frozenset(target.columns | {self.tag})", expect="silent")
